@@ -55,6 +55,7 @@ Definition regex_lib : list (list N * bool) :=
   ; ([64]%N, true)                                     (* @ *)
   ; ([94; 46; 123; 50; 44; 52; 125; 36]%N, true)       (* ^.{2,4}$ *)
   ; ([98; 123; 50; 125]%N, true)                       (* b{2} *)
+  ; ([40; 63; 105; 41; 94; 107; 91; 48; 45; 57; 93; 43; 36]%N, true)   (* (?i)^k[0-9]+$ *)
   ; ([40]%N, false)                                    (* (   *)
   ; ([91; 97; 45]%N, false)                            (* [a- *)
   (* keyed by the value of the literal: a backslash is the single code 92 *)
